@@ -3,6 +3,7 @@ CONSTANTS
   MaxOps = 4
   Deviations <- NoDev
   JunkBytes <- MCJunk
+  RegistryOps = TRUE
 CHECK_DEADLOCK FALSE
 VIEW ViewNoHist
 INVARIANT FramesRight
